@@ -76,6 +76,12 @@ func init() {
 		rt := c.Signature.Results().At(0).Type()
 		if p, ok := a[0].(PtrV); ok && p.Ref != nil {
 			x.nilCheck(st, p.Ref, ins)
+			// an atomic pointer is shared: unless this function allocated the object itself, any other
+			// goroutine may have stored into it since the last look
+			x.markVolatile(p.Root+".ptr", rt)
+			if !x.constructing(st, monObj{ref: p.Ref}) {
+				st.havocHeapAt(p.Ref, p.Root+".ptr", rt)
+			}
 			return st.heapLoad(p.Ref, p.Root+".ptr", rt), true
 		}
 		return st.freshValue("aload", rt), true
@@ -83,6 +89,7 @@ func init() {
 	specials["(*sync/atomic.Pointer).Store"] = func(x *Exec, st *State, ins ssa.Instruction, c *ssa.Function, a []Value) (Value, bool) {
 		if p, ok := a[0].(PtrV); ok && p.Ref != nil {
 			x.nilCheck(st, p.Ref, ins)
+			x.markVolatile(p.Root+".ptr", c.Signature.Params().At(0).Type())
 			st.heapStore(p.Ref, p.Root+".ptr", c.Signature.Params().At(0).Type(), a[1])
 		}
 		return nil, true
@@ -514,6 +521,19 @@ func (x *Exec) lockOp(st *State, ins ssa.Instruction, lockPtr Value, op string) 
 		x.checkMonitorFree(st, ins, m, "unlock")
 		delete(st.Held, k)
 		st.Events = append(st.Events, "unlock:"+m.root)
+	}
+}
+
+// markVolatile: the heap keys of an atomic pointer are shared state that any goroutine may change at
+// any time: exempt from frame conditions (every Load re-reads).
+func (x *Exec) markVolatile(root string, t types.Type) {
+	if x.volatileKeys == nil {
+		x.volatileKeys = map[string]bool{}
+	}
+	var ls []leaf
+	flatten(t, "", &ls)
+	for _, l := range ls {
+		x.volatileKeys[root+l.suffix] = true
 	}
 }
 
